@@ -226,9 +226,11 @@ pub fn streaming_case(cx: &mut Ctx, strings: &[String], terms: &[u8], cut_last: 
         bad
     });
     match r {
-        Err(p) => cx.sum.fail(cell, None, cj, &format!("panicked: {}", p)),
-        Ok(bad) => if !bad.is_empty() { cx.sum.fail(cell, None, cj, &bad.join("; ")); }
+        Err(p) => cx.sum.fail(cell, None, cj.clone(), &format!("panicked: {}", p)),
+        Ok(bad) => if !bad.is_empty() { cx.sum.fail(cell, None, cj.clone(), &bad.join("; ")); }
     }
+    let mix = terms.iter().fold(strings.len() as u64 * 7 + cut_last as u64, |a, &t| a.wrapping_mul(31).wrapping_add(t as u64 + 1));
+    x::stream_emit(cx, cj, text.as_bytes(), strings.len(), mix);
 }
 
 // ---------------------------------------------------------------- SortableStrVec
@@ -480,6 +482,7 @@ pub fn unicode_case(cx: &mut Ctx, text: &[u8]) {
         Err(p) => cx.sum.fail(cell, None, cj, &format!("panicked: {}", p)),
         Ok(bad) => if !bad.is_empty() { cx.sum.fail(cell, None, cj, &bad.join("; ")); }
     }
+    x::utf8_emit(cx, text);
 }
 
 // ---------------------------------------------------------------- LineProcessor configurations
